@@ -4,6 +4,17 @@ use roxmltree::Node;
 use std::fmt::Display;
 use std::str::FromStr;
 
+/// XML namespace of the elements defined by the E57 standard.
+pub const E57_NAMESPACE: &str = "http://www.astm.org/COMMIT/E57/2010-e57-v1.0";
+
+/// True for the element of the E57 standard with the given name.
+/// Elements of other XML namespaces belong to extensions and are never
+/// taken for standard elements, whatever their local name is.
+pub fn is_tag(node: &Node, tag_name: &str) -> bool {
+    let uri = node.tag_name().namespace().unwrap_or_default();
+    node.has_tag_name(tag_name) && (uri.is_empty() || uri == E57_NAMESPACE)
+}
+
 /// Text of an element: all of its text children in document order, also when comments,
 /// processing instructions or elements of extensions stand between or before them.
 pub fn text(node: &Node) -> Option<String> {
@@ -13,7 +24,7 @@ pub fn text(node: &Node) -> Option<String> {
 }
 
 pub fn opt_string(parent_node: &Node, tag_name: &str) -> Result<Option<String>> {
-    if let Some(tag) = parent_node.children().find(|n| n.has_tag_name(tag_name)) {
+    if let Some(tag) = parent_node.children().find(|n| is_tag(n, tag_name)) {
         let expected_type = "String";
         if let Some(found_type) = tag.attribute("type") {
             if found_type != expected_type {
@@ -40,7 +51,7 @@ fn opt_num<T: FromStr + Sync + Send>(
     tag_name: &str,
     expected_type: &str,
 ) -> Result<Option<T>> {
-    if let Some(tag) = parent_node.children().find(|n| n.has_tag_name(tag_name)) {
+    if let Some(tag) = parent_node.children().find(|n| is_tag(n, tag_name)) {
         if let Some(found_type) = tag.attribute("type") {
             if found_type != expected_type {
                 Error::invalid(format!(
@@ -82,7 +93,7 @@ pub fn req_int<T: FromStr + Send + Sync>(parent_node: &Node, tag_name: &str) -> 
 }
 
 pub fn opt_date_time(parent_node: &Node, tag_name: &str) -> Result<Option<DateTime>> {
-    if let Some(tag) = parent_node.children().find(|n| n.has_tag_name(tag_name)) {
+    if let Some(tag) = parent_node.children().find(|n| is_tag(n, tag_name)) {
         let expected_type = "Structure";
         if let Some(found_type) = tag.attribute("type") {
             if found_type != expected_type {
@@ -100,7 +111,7 @@ pub fn opt_date_time(parent_node: &Node, tag_name: &str) -> Result<Option<DateTi
 }
 
 pub fn opt_transform(parent_node: &Node, tag_name: &str) -> Result<Option<Transform>> {
-    let node = parent_node.children().find(|n| n.has_tag_name(tag_name));
+    let node = parent_node.children().find(|n| is_tag(n, tag_name));
     if let Some(node) = node {
         Ok(Some(Transform::from_node(&node)?))
     } else {
